@@ -18,8 +18,27 @@ class TranslateError(Exception):
     pass
 
 def read(rel):
-    with open(os.path.join(REPO, rel), encoding="utf-8") as f:
-        return f.read()
+    """the source file in canonical layout: formatted by rustfmt (default style, in a scratch copy) when it is available, so
+    that line breaks and indentation of the working tree do not matter to the patterns below"""
+    path = os.path.join(REPO, rel)
+    with open(path, encoding="utf-8") as f:
+        raw = f.read()
+    try:
+        import shutil, subprocess, tempfile
+        exe = shutil.which("rustfmt")
+        if exe:
+            with tempfile.TemporaryDirectory() as d:
+                tmp = os.path.join(d, os.path.basename(rel))
+                with open(tmp, "w", encoding="utf-8") as f:
+                    f.write(raw)
+                p = subprocess.run([exe, "--edition", "2024", "--config", "skip_children=true", tmp],
+                                   stdout=subprocess.PIPE, stderr=subprocess.PIPE, timeout=60)
+                if p.returncode == 0:
+                    with open(tmp, encoding="utf-8") as f:
+                        return f.read()
+    except Exception:
+        pass
+    return raw
 
 def lean_str(s):
     out = []
